@@ -40,6 +40,11 @@ func markV[T any](s *c14site, v T) T { *s = here(runtime.Caller(1)); return v }
 
 var c14err = fmt.Errorf("an error value")
 
+// small functions the compiler inlines (default build); the log call is their last statement
+func c14inlLast(l slog.Logger, s *c14site)  { l.Info(mark(s), "k", 1) }
+func c14inlInner(l slog.Logger, s *c14site) { l.Warn(mark(s), "k", 2) }
+func c14inlOuter(l slog.Logger, s *c14site) { c14inlInner(l, s) }
+
 // an errors.v3 error with stack info, created here - far from every log call
 var c14v3err = errorsv3.New("v3 error with a stack")
 
@@ -79,6 +84,8 @@ func c14entries() []c14entry {
 		{"Info", "native", func(e *c14env) (s c14site) { e.l.Info(mark(&s), "k", 1); return }},
 		{"Error with a stack-carrying error attribute (created elsewhere)", "native", func(e *c14env) (s c14site) { e.l.Error(mark(&s), "err", c14v3err, "k", 1); return }},
 		{"Info from a file whose name needs escaping (//line directive)", "native", c14lineSite},
+		{"Info as the last statement of a small function that the compiler inlines into its caller", "native", func(e *c14env) (s c14site) { c14inlLast(e.l, &s); return }},
+		{"Warn as the last statement of an inlined function, two levels", "native", func(e *c14env) (s c14site) { c14inlOuter(e.l, &s); return }},
 		{"second of two records from ONE call site, the first carried a stack-carrying error", "native", func(e *c14env) (s c14site) {
 			for i := 0; i < 2; i++ { e.reset(); e.l.Error(mark(&s), "err", c14errOrText(i == 0), "k", i) }
 			return
@@ -446,6 +453,12 @@ func c14run1(cas c14case) *Violation {
 		}
 		if cas.SkipVia == "SetSkip" {
 			l.SetSkip(cas.Skip)
+			if cas.Logger == "root" && cas.Skip%2 == 1 {
+				// ... and only then is the logger installed as the package default (and the old default put back afterwards)
+				old := slog.Default()
+				slog.SetDefault(l)
+				defer slog.SetDefault(old)
+			}
 		} else {
 			parent := l
 			var keep []slog.Logger
